@@ -24,6 +24,8 @@ def check(ctx):
     ctx.sub(s5_history)
     ctx.sub(s6_aggregates)
     ctx.sub(s3b_refused_movements)
+    from . import c04
+    ctx.sub(c04.s2_s3_update)          # a fill is debited to the portfolio whose queue the order came from
     refl = reflection_sites(M)
     ctx.require(not [r for r in refl if r[2] in ('setattr', 'delattr', 'exec', 'eval', '__dict__', '__setattr__', 'vars', 'globals')],
                 'C01.closed-world', 'no reflection in the package', refl[0][0].site(refl[0][1]) if refl else None,
